@@ -23,7 +23,7 @@ TECHNIQUE = (
 )
 RULE = (
     "case = (150-700 rows, spectrum multiplicities, noise features, data seed, row permutation seed, max_iter 1-10, "
-    "estimator interface decision_function / predict_proba (n,2) / predict_proba (n,1), train_fdr, feature-column "
+    "estimator interface decision_function / predict_proba (n,2) / predict_proba (n,1), optional GridSearchCV wrapper, optional explicit direction, train_fdr, feature-column "
     "permutation of the prediction set, optional duplicated rows producing score ties). Each case trains 4 times "
     "(identity/permuted rows x shuffle on/off). Non-trivial: max_iter>=2 and the row permutation is not the identity. "
     "Distinct = distinct canonical JSON."
@@ -57,6 +57,8 @@ def _case(draw, tier):
         "model_rng": draw(st.integers(0, 10**6)),
         "colperm": draw(st.integers(0, 2**16)),
         "discrete": draw(st.sampled_from([False, False, True])),
+        "direction": draw(st.sampled_from([None, None, None, "f0", "f0", "f1"])),
+        "search": draw(st.sampled_from([False, False, True])),
     }
 
 
@@ -81,8 +83,13 @@ def _train(case, df, meta, order, shuffle, probe, probe2, tmp, tag):
     recorder.new_log(logname)
     try:
         est = recorder.Centroid(log=logname, iface=case["iface"])
+        if case.get("search"):
+            # hyper-parameter search wrapper, as PercolatorModel uses: the search fits clones on row subsets first
+            from sklearn.model_selection import GridSearchCV, KFold
+
+            est = GridSearchCV(est, param_grid={"w": [1.0, 2.0]}, refit=False, cv=KFold(3, shuffle=True, random_state=1))
         model = mokapot.Model(est, scaler="as-is", train_fdr=case["fdr"], max_iter=case["max_iter"], override=True,
-                              shuffle=shuffle, rng=case["model_rng"])
+                              shuffle=shuffle, rng=case["model_rng"], direction=case.get("direction"))
         guarded(model.fit, ds, allowed=[(RuntimeError, "No PSMs accepted at train_fdr|No PSMs found below|Model performs worse")],
                 sig="Model.fit")
         events = list(recorder.LOGS[logname])
@@ -140,7 +147,16 @@ def check(case):
             # ---- every fit call: rows and labels belong to the same PSM ----------------
             prev_out = None  # rid -> output of the previous iteration
             it = 0
+            main_tok = getattr(model.estimator, "token_", None)
             for tok, kind, rids, vals in events:
+                if tok != main_tok:
+                    # clones fitted by the hyper-parameter search on subsets: rows and labels must still belong together
+                    if kind == "fit":
+                        for r, yy in zip(rids.tolist(), vals.tolist()):
+                            require((yy == 0) == (not tg[r]), "label-misaligned",
+                                    f"{tag} hyper-parameter search: row {r} is a {'target' if tg[r] else 'decoy'} but is fed with label {yy}")
+                        counters["search_fits_checked"] = counters.get("search_fits_checked", 0) + 1
+                    continue
                 if kind == "predict":
                     require(len(rids) == n and len(set(rids.tolist())) == n, "predict-rows", f"{tag}: training-time scoring saw {len(rids)} rows of {n}")
                     prev_out = dict(zip(rids.tolist(), vals.tolist()))
@@ -160,7 +176,7 @@ def check(case):
                     ok = False
                     best = 0
                     cands = []
-                    for f in feats:
+                    for f in ([case["direction"]] if case.get("direction") else feats):
                         for dsc in (True, False):
                             acc, amb = _accepted_set(df[f].values, tg, thr, dsc)
                             cands.append((len(acc), acc, amb))
@@ -179,6 +195,16 @@ def check(case):
                 counters["fit_calls_checked"] += 1
             require(it == case["max_iter"] + (0 if True else 0) or it >= 1, "fit-count", f"{tag}: {it} fit calls")
             results[tag] = preds
+    if failed and any("No PSMs accepted at train_fdr" in m or "No PSMs found below" in m for m in failed.values()):
+        # the rejection claims that no target is accepted at the training FDR under the initial direction: verify
+        best = 0
+        for f in ([case["direction"]] if case.get("direction") else feats):
+            for dsc in (True, False):
+                acc, amb = _accepted_set(df[f].values, tg, thr, dsc)
+                best = max(best, len(acc - amb))
+        require(best == 0, "spurious-no-psms-accepted",
+                f"training stops with '{next(iter(failed.values()))[:70]}' although {best} targets are accepted at FDR {thr} "
+                f"under {'feature ' + case['direction'] if case.get('direction') else 'the best feature'}")
     if failed:
         require(len(failed) == 4, "training-outcome-differs",
                 f"training succeeds for {sorted(results)} but fails for {failed}: the outcome depends on row order / the shuffle switch")
@@ -199,6 +225,10 @@ def check(case):
     classes = [case["iface"], f"iter{case['max_iter']}"]
     if case["discrete"]:
         classes.append("discrete-features(ties)")
+    if case.get("direction"):
+        classes.append("explicit-direction")
+    if case.get("search"):
+        classes.append("hyper-parameter-search")
     if feat_perm != feats:
         classes.append("features-permuted")
     nontrivial = case["max_iter"] >= 2 and not np.array_equal(perm, ident)
